@@ -264,11 +264,14 @@ def build_harness(cmd, race=False, timeout=1200):
     """go build -tags verif of harness/cmd/<cmd> against the current working tree of REPO."""
     with Lock("go-" + cmd):
         modfile, h = harness_modfile()
-        out = os.path.join(BUILD, "bin-" + h, cmd + ("-race" if race else ""))
+        cover = os.environ.get("VERIF_COVERDIR")   # development aid (tools/harness_coverage.sh): which library code do the harnesses reach
+        out = os.path.join(BUILD, "bin-" + h, cmd + ("-race" if race else "") + ("-cover" if cover else ""))
         os.makedirs(os.path.dirname(out), exist_ok=True)
         args = ["go", "build", "-modfile=" + modfile, "-tags", "verif", "-o", out]
         if race:
             args.append("-race")
+        if cover:
+            args += ["-cover", "-coverpkg=github.com/tdewolff/canvas/..."]
         args.append("./cmd/" + cmd)
         rc, log = sh(["timeout", str(timeout)] + args, cwd=HARNESS, env=goenv())
     if rc != 0:
@@ -281,6 +284,8 @@ class BuildError(Exception):
 
 
 def run_bin(path, args, timeout=1200, inp=None, env=None):
+    if os.environ.get("VERIF_COVERDIR"):
+        env = dict(env or os.environ, GOCOVERDIR=os.environ["VERIF_COVERDIR"])
     p = subprocess.run(["timeout", str(timeout), path] + list(args), input=inp, env=env,
                        stdout=subprocess.PIPE, stderr=subprocess.PIPE, text=True)
     return p.returncode, p.stdout, p.stderr
